@@ -26,7 +26,8 @@ THEOREMS = {"Artap.Props.C17": [
     "C17_sorted_listing_is_permutation_of_pairs", "C17_sorted_listing_exact", "C17_goal_on_parameter_pairs",
     "C17_parameter_on_goal_pairs", "C17_find_optimum_extremal", "C17_find_optimum_first", "C17_float_find_optimum",
     "C17_maxdiff_is_max", "C17_eps_add_max_min_max", "C17_eps_add_nonneg", "C17_eps_add_identical_zero",
-    "C17_eps_add_shift", "C17_gd_mean_min_distance", "C17_gd_zero_iff_subset", "C17_gd_enclosure_sound"]}
+    "C17_eps_add_shift", "C17_gd_mean_min_distance", "C17_gd_zero_iff_subset", "C17_gd_enclosure_sound",
+    "C17_gd_enclosure_red_sound"]}
 AXIOMS_OK = FLOAT_AXIOMS + REAL_AXIOMS
 TRUSTED = [
     "Coq 8.16.1 kernel; vm_compute for model evaluation in the generated case files (no native_compute)",
@@ -926,6 +927,116 @@ def gen_indicator_case(rng):
     return "single", [ref[0]], [list(ref[0])], None
 
 
+def boundary_indices(n):
+    """first, last, and every 2^k - 1 / 2^k (k >= 7) below n: where a block-wise evaluation would cut"""
+    out = {0, n - 1}
+    k = 7
+    while 2 ** k - 1 < n:
+        out.add(2 ** k - 1)
+        if 2 ** k < n:
+            out.add(2 ** k)
+        k += 1
+    return sorted(out)
+
+
+BIG_SIZES = [255, 256, 257, 511, 512, 513, 1023, 1024, 1025, 2047, 2048, 2049, 4097]
+
+
+def gen_big_indicator_cases(rng, thorough):
+    """Point sets whose SIZES straddle the powers of two 2^8 .. 2^12, with the point that decides the indicator placed at a
+    block-boundary index (first, last, 2^k - 1, 2^k).  (style, ref, comp, shift, only) as gen_indicator_case; dyadic values."""
+    out = []
+    grid = [0.0, 0.5, 1.0, 1.5, 2.0, 2.5, 3.0]
+
+    def pool(m, k):
+        pts = []
+        while len(pts) < k:
+            q = [rng.choice(grid) for _ in range(m)]
+            if q not in pts:
+                pts.append(q)
+        return pts
+
+    def far(p, j=0):
+        """p moved by the dyadic distance 5 * 2^j (3-4-5 triangle in the first two coordinates, 5 along the axis in one
+        dimension): off the grid [0, 3]^m the reference points are taken from"""
+        q = list(p)
+        if len(q) >= 2:
+            q[0] += 3.0 * 2 ** j
+            q[1] += 4.0 * 2 ** j
+        else:
+            q[0] += 5.0 * 2 ** j
+        return q
+
+    for n in BIG_SIZES:
+        bidx = boundary_indices(n)
+        top = max(i for i in bidx if i < n - 1)             # the largest 2^k - 1 / 2^k below the last index
+        picks = [n - 1, top]
+        rest = [i for i in bidx if i not in picks]
+        picks += rng.sample(rest, min(len(rest), 3 if thorough or n <= 513 else 1))
+        # gd: every computed point is a reference point, except one (gd = distance / n; zero iff it is put back)
+        for i in picks:
+            m = rng.choice([1, 2, 2, 3])
+            ref = pool(m, rng.choice([2, 3, 4]))
+            comp = [list(rng.choice(ref)) for _ in range(n)]
+            comp[i] = far(comp[i], rng.choice([0, 1, 3]))
+            out.append(("big:one_moved@%s" % ("last" if i == n - 1 else i), ref, comp, None, None if n <= 513 else "gd"))
+        # ... except the points at ALL the boundary indices, each at its own distance (the sum tells which were measured)
+        m = rng.choice([1, 2])
+        ref = pool(m, 3)
+        comp = [list(rng.choice(ref)) for _ in range(n)]
+        for j, i in enumerate(bidx):
+            comp[i] = far(comp[i], j)
+        out.append(("big:all_boundaries_moved", ref, comp, None, None if n <= 513 else "gd"))
+        # every computed point is a reference point (gd = 0 exactly, epsilon by the uncovered reference points)
+        ref = pool(rng.choice([1, 2]), 4)
+        out.append(("big:subset", ref, [list(rng.choice(ref[:3])) for _ in range(n)], None, None))
+        # every computed point off the reference (all distances positive)
+        if n <= 1025 or thorough:
+            m = rng.choice([1, 2, 2, 3])
+            out.append(("big:all_far", pool(m, rng.choice([1, 2, 3])), [[dy(rng) for _ in range(m)] for _ in range(n)], None,
+                        None if n <= 513 else "gd"))
+        # big reference set AND big computed set: identical (shuffled), shifted by d >= 0.  The model's exact minimum of the
+        # squared distances is |ref| * |comp| rational operations (3 - 10 s of Coq at 512 x 512) and epsilon_add itself is a
+        # Python double loop: 255 .. 257 (thorough: up to 513, gd alone up to 1025)
+        for style in ("identical", "shift"):
+            if n <= (1025 if thorough else 257):
+                m = rng.choice([1, 2, 2])
+                ref = [[dy(rng) for _ in range(m)] for _ in range(n)]
+                only = None if n <= 513 else "gd"
+                if style == "identical":
+                    comp = [list(q) for q in ref]
+                    rng.shuffle(comp)
+                    out.append(("identical", ref, comp, None, only))
+                else:
+                    d = rng.choice([0.125, 0.5, 2 ** -20, 7.0]) if n <= 513 else 0.5
+                    out.append(("shift", ref, [[x + d for x in q] for q in ref], d, only))
+        # gd: the reference point nearest to the computed points sits at a boundary index of a big reference set
+        for i in picks[:2 if not thorough else len(picks)]:
+            m = rng.choice([1, 2, 3])
+            base = pool(m, 3)
+            ref = [[x + 20.0 + rng.choice([0.0, 0.5, 4.0]) for x in rng.choice(base)] for _ in range(n)]
+            ref[i] = [x + rng.choice([0.0, 0.25]) for x in base[0]]
+            comp = [list(q) for q in base[:rng.choice([1, 2, 3])]]
+            out.append(("big:gd_reference_point@%s" % ("last" if i == n - 1 else i), ref, comp, None, "gd"))
+        # epsilon_add: the reference point that decides the indicator sits at a boundary index of a big reference set ...
+        for i in picks[:2 if not thorough else len(picks)]:
+            m = rng.choice([1, 2, 3])
+            base = pool(m, 3)
+            ref = [list(rng.choice(base)) for _ in range(n)]
+            ref[i] = [x - 5.0 - rng.choice([0.0, 0.5]) for x in ref[i]]
+            comp = [[x + rng.choice([0.0, 0.125, 0.5]) for x in q] for q in base[:rng.choice([1, 2, 3])]]
+            out.append(("big:eps_reference_point@%s" % ("last" if i == n - 1 else i), ref, comp, None, "eps"))
+        # ... and the only computed point near the reference sits at a boundary index of a big computed set
+        for i in picks[:2 if not thorough else len(picks)]:
+            m = rng.choice([1, 2, 3])
+            ref = pool(m, rng.choice([1, 2]))
+            comp = [[x + 10.0 + rng.choice([0.0, 0.5, 1.0]) for x in rng.choice(ref)] for _ in range(n)]
+            comp[i] = [x + 0.125 for x in ref[0]]
+            out.append(("big:eps_computed_point@%s" % ("last" if i == n - 1 else i), ref, comp, None, "eps"))
+    rng.shuffle(out)            # the expensive ones (both sets big) spread over the generated files
+    return out
+
+
 def qll(points):
     return ll([ll(p, ql) for p in points])
 
@@ -1181,9 +1292,12 @@ def run(ctx):
     icases = [(c.get("style", "corpus"), c["ref"], c["comp"], c.get("shift"), c.get("only")) for c in corpus if c["kind"] == "indicator"]
     for _ in range(ctx.pick(500, 10000)):
         icases.append(gen_indicator_case(rng) + (None,))
+    n_small = len(icases)
+    icases.extend(gen_big_indicator_cases(rng, ctx.thorough))       # sizes around 2^8 .. 2^12 (red team round 2)
+    big_start = None
     cases, expected, meta = [], [], []
     istats = {"styles": {}, "eps_values": {"zero": 0, "positive": 0, "inf": 0, "error": 0}, "gd_values": {"zero": 0, "positive": 0, "error": 0},
-              "through_performance_measure": 0, "dims": {}}
+              "through_performance_measure": 0, "dims": {}, "sizes_big": {}}
 
     def ifail(what, inp, observed, which):
         ctx.oracle_failures.append({"what": what, "input": inp, "observed": repr(observed),
@@ -1203,7 +1317,9 @@ def run(ctx):
         p.individuals = inds
         return Results(p).performance_measure([list(r) for r in ref], type=which)
 
-    for style, ref, comp, shift, only in icases:
+    for icase_no, (style, ref, comp, shift, only) in enumerate(icases):
+        if icase_no == n_small:
+            big_start = len(cases)
         ref = [[float(x) for x in p] for p in ref]
         comp = [[float(x) for x in p] for p in comp]
         istats["styles"][style] = istats["styles"].get(style, 0) + 1
@@ -1212,6 +1328,8 @@ def run(ctx):
         wf = bool(ref + comp) and m >= 1 and all(len(p) == m for p in ref + comp)
         inp = {"kind": "indicator", "style": style, "ref": ref, "comp": comp, "shift": shift}
         through = len(comp) >= 2 and wf and rng.random() < 0.3
+        if len(ref) + len(comp) >= 200:
+            istats["sizes_big"][("ref %d, comp %d" % (len(ref), len(comp)))] = istats["sizes_big"].get("ref %d, comp %d" % (len(ref), len(comp)), 0) + 1
         istats["through_performance_measure"] += 2 * through
         if only in (None, "eps"):
             # ---------- epsilon_add
@@ -1281,8 +1399,24 @@ def run(ctx):
             ctx.count(("G", hxl(sum(ref, [])), hxl(sum(comp, [])), len(ref), len(comp)), nontrivial=wf and len(ref) + len(comp) >= 3)
         if len(ctx.samples) < 4 and style in ("random", "shift") and len(ref) >= 2 and m >= 2:
             ctx.sample({"indicator_case": inp, "observed": expected[-2:]})
-    ctx.coq_compare("c17_indicators", IHEADER, "icase", "iobs", "c17_irun", "c17_iobs_eqb", cases, expected, meta,
-                    shard=ctx.pick(80, 500))
+    if big_start is None:
+        big_start = len(cases)
+    ctx.coq_compare("c17_indicators", IHEADER, "icase", "iobs", "c17_irun", "c17_iobs_eqb", cases[:big_start], expected[:big_start],
+                    meta[:big_start], shard=ctx.pick(80, 500))
+    # the big point sets: few cases per file, the files are evaluated in parallel
+    n0 = len(ctx.mismatches)
+    ctx.coq_compare("c17_indicators_big", IHEADER, "icase", "iobs", "c17_irun", "c17_iobs_eqb", cases[big_start:], expected[big_start:],
+                    meta[big_start:], shard=ctx.pick(6, 10))
+    for mm in ctx.mismatches[n0:]:          # a mismatching case keeps its description, not its thousands of points
+        c = mm.get("case")
+        if isinstance(c, dict) and "ref" in c:
+            mm["case"] = dict(c, ref=c["ref"][:6] + ["... %d points" % len(c["ref"])] if len(c["ref"]) > 6 else c["ref"],
+                              comp=("%d points; those that are not reference points: %r"
+                                    % (len(c["comp"]), [(i, q) for i, q in enumerate(c["comp"]) if q not in c["ref"][:64]][:8]))
+                              if len(c["comp"]) > 6 else c["comp"])
+            mm.pop("implementation", None) if len(str(mm.get("implementation", ""))) > 2000 else None
+            if len(str(mm.get("model", ""))) > 2000:
+                mm["model"] = str(mm["model"])[:300] + " ..."
 
     del stats["flip"]
     ctx.rule = ("result queries: 1-3 parameters, 1-3 goals with criteria drawn from {absent, minimize, maximize}, 0-10 recorded "
